@@ -35,6 +35,7 @@ pub async fn make_ep(net: &SimNet, slot: u8, key: u8, hooks: Option<SimHooks>) -
         .secret_key(secret(key))
         .relay_mode(RelayMode::Disabled)
         .clear_ip_transports()
+        .portmapper_config(iroh::endpoint::PortmapperConfig::Disabled)
         .dns_resolver(DnsResolver::custom(SimResolver::new(vec![], vec![], vec![])))
         .add_custom_transport(net.transport(slot))
         .address_lookup(net.lookup());
@@ -42,7 +43,9 @@ pub async fn make_ep(net: &SimNet, slot: u8, key: u8, hooks: Option<SimHooks>) -
         b = b.hooks(h);
     }
     net.route(secret(key).public(), slot);
-    b.bind().await.map_err(|e| format!("bind failed: {e:#}"))
+    let ep = b.bind().await.map_err(|e| format!("bind failed: {e:#}"))?;
+    crate::fw::rt::settle_after_bind().await;
+    Ok(ep)
 }
 
 fn gen_net(rng: &mut Rng) -> NetCfg {
@@ -248,7 +251,7 @@ impl Typed for C40 {
                         Ok(r) => r,
                         Err(_) => Err("timeout".to_string()),
                     };
-                    ctx3.ev(format!("dial {i} -> {}", match &r { Ok(a) => format!("established alpn={}", show(a)), Err(e) => format!("failed ({})", e.split(':').next().unwrap_or("")) }));
+                    let _ = &ctx3;
                     cell.lock().unwrap()[i] = Some(r);
                 };
                 if case.concurrent {
@@ -261,11 +264,16 @@ impl Typed for C40 {
                 let _ = tokio::time::timeout(Duration::from_secs(60), t).await;
             }
             let results: Vec<Result<Vec<u8>, String>> = results_cell.lock().unwrap().iter().map(|r| r.clone().unwrap_or(Err("timeout".to_string()))).collect();
+            // recorded in dial order, not completion order (see DESIGN 9.6)
+            for (i, r) in results.iter().enumerate() {
+                ctx.ev(format!("dial {i} -> {}", match r { Ok(a) => format!("established alpn={}", show(a)), Err(e) => format!("failed ({})", e.split(':').next().unwrap_or("")) }));
+            }
             net.stop_faults();
             tokio::time::sleep(Duration::from_secs(30)).await;
             yields(8).await;
             // ---- oracle ----
-            let invocations = log.lock().unwrap().clone();
+            let mut invocations = log.lock().unwrap().clone();
+            invocations.sort_by_key(|x| (x.2, x.0));
             let flog = filter_log.lock().unwrap().clone();
             for (h, negotiated, tag) in &invocations {
                 ctx.ev(format!("handler proto{h} invoked negotiated={} tag={tag}", show(negotiated)));
@@ -698,6 +706,7 @@ impl Typed for C42 {
                         .secret_key(secret(key))
                         .relay_mode(RelayMode::Disabled)
                         .clear_ip_transports()
+        .portmapper_config(iroh::endpoint::PortmapperConfig::Disabled)
                         .dns_resolver(DnsResolver::custom(SimResolver::new(vec![], vec![], vec![])))
                         .add_custom_transport(net.transport(slot))
                         .address_lookup(net.lookup())
@@ -706,7 +715,9 @@ impl Typed for C42 {
                         b = b.hooks(h);
                     }
                     net.route(secret(key).public(), slot);
-                    b.bind().await.map_err(|e| format!("{e:#}"))
+                    let ep = b.bind().await.map_err(|e| format!("{e:#}"))?;
+                    crate::fw::rt::settle_after_bind().await;
+                    Ok::<Endpoint, String>(ep)
                 }
             };
             let (server, client) = match (build(0, 0, server_hooks).await, build(1, 1, client_hooks).await) {
